@@ -87,11 +87,15 @@ def _run(prop, tier):
     cap = plan.get("time_cap")
     deadline = t0 + cap if cap else None
 
-    agg = dict(evaluations=0, counters=Counter(), keys=set(), verdicts=Counter(), inconclusive=Counter(), features=Counter(), samples=[], violations=[], kf_seen=Counter(), streams=Counter(), watchdog_cases=[])
+    agg = dict(evaluations=0, counters=Counter(), keys=set(), verdicts=Counter(), inconclusive=Counter(), features=Counter(), samples=[], violations=[], kf_seen=Counter(), streams=Counter(), watchdog_cases=[], cover={})
     rerun = []
     max_samples = plan.get("max_samples", 4)
 
     def on_result(r):
+        if "coverage" in r and "verdict" not in r:
+            for f, ls in r["coverage"].items():
+                agg["cover"].setdefault(f, set()).update(ls)
+            return
         agg["evaluations"] += 1
         agg["streams"][r.get("stream", "?")] += 1
         agg["verdicts"][r.get("verdict", "?")] += 1
@@ -220,6 +224,12 @@ def _run(prop, tier):
         time_cap_s=cap,
         trusted_base=getattr(mod, "TRUSTED", []),
     )
+    try:
+        from . import cover as _cover
+
+        cov["anchor_coverage_probe"] = dict(note="lines of the anchored mechanisms executed by the share of the workload that ran on the probe worker (1 of the workers); line ranges are those of properties.jsonl (pinned commit)", mechanisms=_cover.report(prop, agg["cover"]), files={f: len(v) for f, v in agg["cover"].items()})
+    except Exception as e:
+        cov["anchor_coverage_probe"] = dict(error=repr(e))
     cov.update(extra)
     ev = dict(property_id=prop, tier=tier, seed=seed, level=getattr(mod, "LEVEL", "exploration"), coverage=jsonable(cov), assumptions=getattr(mod, "ASSUMPTIONS", []), wall_s=round(wall, 2), violations=len(agg["violations"]))
     edir = VERIF / "evidence"
